@@ -500,3 +500,62 @@ def rule_clipperd_scale_table(db, chk, cfg, rule="SCALE.ClipperD-table"):
                       "ClipperD's scale for precision %d is %r; the documented scale is the smallest power of two above 10^precision = %r "
                       "(%d precision value(s) differ)" % (b[0], b[1], b[2], len(bad)), ctor.where, cfg=cfg)
     return n
+
+
+# ---------------------------------------------------------------------------
+# WRAP.no-passthrough: the boolean convenience functions return what the sweep produced
+# ---------------------------------------------------------------------------
+
+BOOLEAN_WRAPPERS = ("BooleanOp", "Intersect", "Union", "Difference", "Xor")
+
+
+def rule_no_passthrough(db, chk, cfg, rule="WRAP.no-passthrough"):
+    """Intersect / Union / Difference / Xor / BooleanOp (free functions, 64-bit and floating-point): every value they return is an empty
+    result, a local filled by an Execute call, or the result of another such wrapper - never one of their own path parameters handed
+    back as it came in (unless a dominating test established that it is empty).  The input of a boolean operation is not its result:
+    the result is the region under the fill rule (overlaps resolved, orientation and start vertices normalised, duplicates removed)."""
+    n = 0
+    for f in db.funcs:
+        if f.is_pattern or f.body is None or f.name not in BOOLEAN_WRAPPERS or f.cls or not f.file or not f.file.endswith("clipper.h"):
+            continue
+        ret_t = f.sig.split("(")[0]
+        if not re.search(r'Paths|Path', ret_t):
+            continue
+        known_empty = [frozenset()]
+
+        def stmt(s):
+            nonlocal n
+            if not isinstance(s, dict) or not s.get("kind"):
+                return
+            k = s.get("kind")
+            if k == "CompoundStmt":
+                for x in kids(s):
+                    stmt(x)
+            elif k == "IfStmt":
+                from ..astq import if_parts
+                cond, then, els = if_parts(s)
+                em = _empty_params(cond)
+                known_empty.append(known_empty[-1] | em)
+                stmt(then)
+                known_empty.pop()
+                stmt(els)
+            elif k in ("ForStmt", "WhileStmt", "DoStmt", "CXXForRangeStmt", "SwitchStmt"):
+                for x in kids(s):
+                    stmt(x)
+            elif k == "ReturnStmt" and kids(s):
+                r0 = strip(kids(s)[0])
+                while r0.get("kind") in ("CXXConstructExpr",) and len(kids(r0)) == 1:
+                    r0 = strip(kids(r0)[0])
+                n += 1
+                bad = r0.get("kind") == "DeclRefExpr" and r0.get("referencedDecl", {}).get("kind") == "ParmVarDecl" and \
+                    r0["referencedDecl"].get("id") not in known_empty[-1]
+                chk.instance(rule, {"function": f.qual, "sig": f.sig[:60], "returns": canon(r0)[:40], "cfg": cfg}, ok=not bad)
+                if bad:
+                    chk.violation(rule, f.qual, "%s|%s" % (f.sig[:40], r0["referencedDecl"].get("name")),
+                                  "%s [%s] returns its parameter '%s' as the result: the caller gets the input as it came in (overlaps unresolved, orientation, start "
+                                  "vertices and duplicates not normalised) instead of the region the fill rule defines" % (f.qual, f.sig[:50], r0["referencedDecl"].get("name")),
+                                  where(s), cfg=cfg)
+        stmt(f.body)
+    if n < 8:
+        raise AnalysisBroken("WRAP.no-passthrough: only %d returns of boolean wrappers found in configuration %s" % (n, cfg))
+    return n
